@@ -5,6 +5,7 @@ import (
 	"flag"
 	"fmt"
 	"os"
+	"runtime"
 	"sort"
 	"strings"
 	"time"
@@ -36,10 +37,27 @@ func verifDir() string {
 	return "/verif"
 }
 
+// memoryWatchdog aborts the process (exit 2: internal error, never a verdict) when the Go heap grows beyond 12 GiB:
+// VC generation normally needs well under 1 GiB; a runaway term must not take the machine down.
+func memoryWatchdog() {
+	go func() {
+		var m runtime.MemStats
+		for {
+			time.Sleep(500 * time.Millisecond)
+			runtime.ReadMemStats(&m)
+			if m.HeapAlloc > 12<<30 {
+				fmt.Fprintf(os.Stderr, "govc: internal error: heap grew to %d MiB while generating verification conditions; aborting\n", m.HeapAlloc>>20)
+				os.Exit(2)
+			}
+		}
+	}()
+}
+
 func main() {
 	if len(os.Args) < 2 {
 		usage()
 	}
+	memoryWatchdog()
 	switch os.Args[1] {
 	case "verify":
 		cmdVerify(os.Args[2:])
